@@ -10,8 +10,18 @@ from common import ModelError, R, Rmat, flmat, max_rel_err
 
 from common import wiring_pre_build as pre_build  # noqa: E402,F401
 
-LEAN_MODULES = ["PyomaVerif.Props.C03", "PyomaVerif.Props.C01", "PyomaVerif.Props.WiringRun"]
+LEAN_MODULES = ["PyomaVerif.Props.C03", "PyomaVerif.Props.C01", "PyomaVerif.Props.WiringRun", "PyomaVerif.Props.C03C11"]
 THEOREMS = [
+    # C03 o C11: multi-setup identification => extraction (Props/C03C11.lean)
+    "PV.C03C11.C03C11_obs_all",
+    "PV.C03C11.C03C11_identified",
+    "PV.C03C11.C03C11_shape",
+    "PV.C03C11.C03C11_cells",
+    "PV.C03C11.C03C11_extract",
+    "PV.C03C11.C03C11_global",
+    "PV.C03C11.ex_identified",
+    "PV.C03C11.ex_filled",
+    "PV.C03C11.ex_near",
     # call-site wiring of the class layer, regenerated from /repo on every run (translate_wiring.py)
     "PV.WiringRun.C03_run_multi",
     "PV.C03.C03_split",
@@ -95,6 +105,10 @@ def correspondence(ctx):
             continue
         S, layout, datasets, ref_ind, br, ordmax, method, gains = case
         Y = gen.pre_multisetup(datasets, ref_ind)
+        if ctx.rng.random() < 0.5:
+            # the per-setup records are a dict with the keys 'ref' and 'mov': their insertion order carries no meaning
+            Y = [{"mov": y["mov"], "ref": y["ref"]} for y in Y]
+            ctx.count("setup_dict_mov_first")
         svds, pinvs, qrs, invs = [], [], [], []
         try:
             with record(np.linalg, "svd", svds), record(np.linalg, "pinv", pinvs), record(np.linalg, "qr", qrs), record(np.linalg, "inv", invs):
@@ -310,6 +324,23 @@ def oracle(ctx, scale):
                 ctx.violation("ms:inaccurate", f"{cls.__name__}: mode {kk}: rel freq err {efn:.2e}, damping err {exi:.2e}, 1-MAC {1 - mc:.2e} (global shape over all sensors)", inp)
                 return
         ctx.count(f"runs_{cls.__name__}" + ("_weakref" if getattr(S, "weak", None) else ""))
+        if ctx.rng.random() < 0.4:
+            # the function itself, handed per-setup dicts whose keys were inserted 'mov' first (the order of the keys of a dict
+            # carries no meaning): same identification
+            Yd = [{"mov": y["mov"], "ref": y["ref"]} for y in Y]
+            try:
+                _Oa, Af, Cf = ssi.SSI_multi_setup(Yd, S.fs, br, ordmax, method_hank=method)
+                f2, x2, p2, l2, *_ = ssi.ac2mp(Af[m2], Cf[m2], S.dt)
+            except np.linalg.LinAlgError:
+                f2 = None
+            if f2 is not None:
+                ctx.oracle_cases += 1
+                ctx.count("function_level_mov_first_dicts")
+                for (kk, rows, efn, exi, mc) in sysgen.match_poles(np.asarray(f2), np.asarray(x2), np.asarray(p2), S, np.asarray(l2)):
+                    if len(rows) < 2 or not (efn <= 1e-7 and exi <= 1e-7 and 1 - mc <= 1e-7):
+                        ctx.violation("ms:function-dict-order", f"ssi.SSI_multi_setup with per-setup dicts built as {{'mov': .., 'ref': ..}}: mode {kk}: rel freq err {efn:.2e}, "
+                                      f"damping err {exi:.2e}, 1-MAC {1 - mc:.2e}", inp)
+                        return
         # extraction at order 2m through the setup: the global shapes over all sensors (references, then roving by setup)
         order = np.argsort(S.fn)
         try:
